@@ -28,6 +28,7 @@ type measurement struct {
 	starts, ends []float64 // ends[i] < 0: production i was still in flight when the run was cancelled
 	notifs       []notifRec
 	stopMs       float64 // when ctx was cancelled
+	noise        float64 // largest overshoot (ms) of a 5 ms sleep observed by a canary goroutine during the run
 	exited       bool
 	panicked     string
 	loopErr      string
@@ -146,6 +147,19 @@ func runReal(sc *script) (ms measurement, err error) {
 
 	errCh := make(chan error, 4)
 	done := make(chan struct{})
+	// scheduler-noise canary: how late does a plain 5 ms timer wake up a goroutine right now?
+	var noise float64
+	canaryDone := make(chan struct{})
+	go func() {
+		defer close(canaryDone)
+		for ctx.Err() == nil {
+			t := time.Now()
+			time.Sleep(5 * time.Millisecond)
+			if over := float64(time.Since(t).Microseconds())/1000 - 5; over > noise {
+				noise = over
+			}
+		}
+	}()
 	t0 = time.Now()
 	go func() {
 		defer close(done)
@@ -167,6 +181,8 @@ func runReal(sc *script) (ms measurement, err error) {
 	case <-time.After(3 * time.Second):
 	}
 	wg.Wait()
+	<-canaryDone
+	ms.noise = noise
 	select {
 	case e := <-errCh:
 		ms.loopErr = e.Error()
@@ -177,6 +193,6 @@ func runReal(sc *script) (ms measurement, err error) {
 	ms.stopMs = since(stop)
 	// copy under the lock (the loop goroutine may still be alive if it did not exit)
 	out := measurement{starts: append([]float64(nil), ms.starts...), ends: append([]float64(nil), ms.ends...),
-		notifs: append([]notifRec(nil), ms.notifs...), stopMs: ms.stopMs, exited: ms.exited, panicked: ms.panicked, loopErr: ms.loopErr}
+		notifs: append([]notifRec(nil), ms.notifs...), stopMs: ms.stopMs, noise: ms.noise, exited: ms.exited, panicked: ms.panicked, loopErr: ms.loopErr}
 	return out, nil
 }
